@@ -34,6 +34,11 @@ def message_loop(fn: ast.FunctionDef, over_self: bool = True) -> ast.For | None:
 
 
 def check(ctx: Ctx) -> None:
+    _check(ctx)
+    _extra(ctx)
+
+
+def _check(ctx: Ctx) -> None:
     p = ctx.p
     fi = p.func(FN)
     ctx.analysed(fi)
@@ -148,3 +153,8 @@ def check(ctx: Ctx) -> None:
               construct="event list rewritten without a following canonical sort",
               message="self._messages is replaced and an exit is reachable without re-sorting it", file=fi.file,
               node=bad[0][1] if bad else fi.node)
+
+
+def _extra(ctx):
+    from ..engines.structure import argmin_rule
+    argmin_rule(ctx)
